@@ -135,3 +135,33 @@ def ungrouped_summarize_then_deselect(case):
 @matcher("ungrouped_summarize_deselected")
 def _m_k03(case, fj):
     return ungrouped_summarize_then_deselect(case)
+
+
+def const_item_names(case):
+    """Names of columns defined by literal-only expressions, per defining step output."""
+    out = {}
+    for s in steps_of(case):
+        if s["verb"] == "mutate":
+            for n, e in s["items"]:
+                if not any(nd[0] == "col" for nd in ir.walk_expr(e)):
+                    out.setdefault(n, []).append(s["out"])
+    return out
+
+
+def group_by_constant(case):
+    """Shape of K05: a group_by followed by summarize where a grouping column is a constant column."""
+    consts = const_item_names(case)
+    if not consts:
+        return False
+    for s in steps_of(case):
+        if s["verb"] == "group_by":
+            for ref in s["cols"]:
+                name = ref.get("c", ref.get("n"))
+                if name in consts:
+                    return True
+    return False
+
+
+@matcher("group_by_constant")
+def _m_k05(case, fj):
+    return group_by_constant(case)
